@@ -111,6 +111,7 @@ type History struct {
 	Existed bool        `json:"existed,omitempty"`
 	DB      string      `json:"db,omitempty"` // "fresh" | "existed" | "golden" (copy of testdata/golden-schema.db); "" = Existed decides
 	Ops     []Op        `json:"ops"`
+	Fault   *Fault      `json:"fault,omitempty"` // fault_test.go: one operation runs while the database fails
 }
 
 func (h History) dbMode() string {
@@ -166,6 +167,8 @@ type runState struct {
 	https []*handlers.HTTP
 	restarts int
 	restartFn func(forced bool) bool // how a "restart" operation is carried out (nil: in-process transcription)
+	exAgents map[string]bool // fault_test.go: sessions whose stored row the failed operation left behind the memory
+	exLinks  map[string]bool // ... and sessions whose stored links it left behind
 }
 
 func newRun(w *pvx.World, h History) *runState {
@@ -279,7 +282,15 @@ func (r *runState) apply(op Op) bool {
 			return false // HTTP.Stop() always sleeps 5 s; not exercised
 		}
 		w.TS.DispatchEvent(r.listenerPk(packager.Type.Listener.Remove, map[string]any{"Name": r.lmod[i].Name}))
-		r.lmod = append(r.lmod[:i], r.lmod[i+1:]...)
+		// the removal is acknowledged only if the server no longer has a listener of that name: that is
+		// when dispatch.go announces the removal to the operators (a server that could not delete the
+		// row keeps the listener and says nothing)
+		for _, l := range w.TS.Listeners {
+			if l.Name == r.lmod[i].Name {
+				return true
+			}
+		}
+		r.lmod = append(append([]LSpec{}, r.lmod[:i]...), r.lmod[i+1:]...)
 		return true
 	case "ledit":
 		if op.L == nil || op.L.HTTP == nil {
